@@ -23,6 +23,11 @@ func Parse(in string) (sections []*Section, err error) {
 	parser.AddErrorListener(errorListener)
 	parser.BuildParseTrees = true
 	tree := parser.Start()
+	// The walker relies on the tree shape the grammar guarantees. A tree built by error recovery
+	// does not have it, so syntax errors are reported without walking.
+	if errorListener.ErrorBuilder.Len() != 0 {
+		return nil, fmt.Errorf("%v", errorListener.ErrorBuilder.String())
+	}
 
 	walker := NewWalker(parser)
 	antlr.ParseTreeWalkerDefault.Walk(walker, tree)
